@@ -15,6 +15,9 @@ disconnections included) the history queries answer the sentences of C13 read on
 `good_history`, `details_refines`, `range_refines`).  Credit / debit records are compared as sets without duplicates
 (the store lists them in bucket order, the ledger in index order); inside the unconfirmed batch of a range query the
 order is the store's (hash order), the ledger's is arrival order.
+Last part of the file (tx3): the same answers as LISTS, order included — `C13_details_exact`, `C13_credit_exact`,
+`C13_debit_exact`, `C13_range_exact`, `C13_range_blocks_exact` (every bucket is in bbolt key order after every sequence
+of store calls: Lemmas/SortedStore.lean; Lemmas/RefExact.lean).
 -/
 namespace TxStore.C13
 open TxStore KMap
